@@ -199,3 +199,42 @@ def roundtrip_symlen(c, layout, flavour, hi):
         out = c.call_async(dpapi_ng.async_ncrypt_unprotect_secret, blob, cache=cache2)
     c.check(seq_eq(out, pt), "symbolic length: unprotect(protect(x)) == x")
     return True
+
+
+HIST_POS = [((361, 5, 3), (361, 9, 6)), ((361, 9, 6), (361, 5, 3)), ((361, 8, 31), (361, 9, 0)), ((361, 31, 31), (362, 0, 0)), ((361, 7, 12), (361, 7, 13))]
+
+
+@harness(P, per_job=True, params=lambda tier: [dict(pos=p, flavour=("sync", "async")[i % 2], hash_name=HASHES[i % 4]) for i, p in enumerate(HIST_POS if tier == "quick" else HIST_POS + [(b, a) for a, b in HIST_POS[2:]])],
+         max_steps=4000000,
+         bounds="a history on ONE KeyCache holding the root key: protect at instant A, protect at instant B (5 listed pairs of positions: earlier/later L1 interval in both orders, "
+         "across an L1 boundary, across an L0 boundary, neighbouring L2 intervals; thorough also reversed), then unprotect both blobs with the same cache and with a fresh one: all "
+         "four decryptions return the plaintexts", outside="longer histories (C10), other position pairs",
+         must_reach=("history: both blobs decrypt with the shared cache and with a fresh one",))
+def roundtrip_history(c, pos, flavour, hash_name):
+    import time
+
+    state = {"now": None}
+    w = e2e.new_world(c, extra=[(time.time_ns, lambda: state["now"])])
+    root = c.bytes("root", 64)
+    cache = e2e.loaded_cache(c, root, hash_name)
+    sid = e2e.SIDS[2]
+    pts, blobs = [c.bytes("pt_a", 7), c.bytes("pt_b", 9)], []
+    for p, pt in zip(pos, pts):
+        lo, _ = e2e.window(p[0], p[1], p[2], -5, -5)
+        state["now"] = lo
+        if flavour == "sync":
+            blobs.append(c.call(dpapi_ng.ncrypt_protect_secret, pt, sid, root_key_identifier=e2e.RK, cache=cache))
+        else:
+            blobs.append(c.call_async(dpapi_ng.async_ncrypt_protect_secret, pt, sid, root_key_identifier=e2e.RK, cache=cache))
+    oks = []
+    for which in (cache, e2e.loaded_cache(c, root, hash_name)):
+        for blob, pt in zip(blobs, pts):
+            if flavour == "sync":
+                out = c.call(dpapi_ng.ncrypt_unprotect_secret, blob, cache=which)
+            else:
+                out = c.call_async(dpapi_ng.async_ncrypt_unprotect_secret, blob, cache=which)
+            oks.append(seq_eq(out, pt))
+    from vlib.api import all_of
+
+    c.check(all_of(oks), "history: both blobs decrypt with the shared cache and with a fresh one")
+    return True
